@@ -381,3 +381,15 @@ func TestC04Unstackable(t *testing.T) {
 		Gen:         genC04U, Run: runC04U,
 	})
 }
+
+func TestC09Unstackable(t *testing.T) {
+	curT = t
+	vrt.Check(t, vrt.Prop[C04UCase]{
+		ID: "C09", Name: "unstackable",
+		Rule: "the histories of C04/unstackable (values that cannot be stacked, invalid and valid values, blocking and not, under Skip / Delay / suppress options, with an EnableVerification call before a generated op in two thirds of the Delay cases); " +
+			"oracle (C09's clauses): nothing is verified while the delay is in force; OnNewConfig and OnWatchedError - for stacking failures as for Verify failures - are withheld exactly while the delay is in force AND the suppress option is set, and delivered exactly once with the right arguments in every other state (Delay without suppress; after the first successful enable); " +
+			"non-trivial = at least one unstackable and one installed update; distinct = distinct case JSON",
+		Assumptions: []string{"see C04/unstackable"},
+		Gen:         genC04U, Run: runC04U,
+	})
+}
